@@ -289,7 +289,8 @@ __strf_tot_secs(struct dt_dtdur_s dur)
 	int64_t s = dur.dv;
 
 	if (UNLIKELY(dur.tai) && dur.durtyp == DT_DURS) {
-		return dur.soft - dur.corr;
+		/* the UTC part, leap seconds go into the S slot later */
+		return dur.soft;
 	}
 
 	switch (dur.durtyp) {
@@ -442,9 +443,14 @@ static struct precalc_s {
 	 * we operate on clean seconds and attribute leap seconds only
 	 * to the S slot, so 59 seconds plus a leap second != 1 minute */
 	with (int64_t S = __strf_tot_secs(dur), d = __strf_tot_days(dur)) {
+		/* the sign is the one of the real difference, the
+		 * correction has the sign of the UTC part or that is 0 */
+		const long int c = __strf_tot_corr(dur);
+
 		us = d * (int)SECS_PER_DAY + S;
-		res.neg = dur.neg || us < 0;
+		res.neg = dur.neg || us + c < 0;
 		us = us >= 0 ? us : -us;
+		res.rS = c >= 0 ? c : -c;
 	}
 
 	if (f.has_week && f.has_biz && !f.has_year && !f.has_mon && !f.has_qtr) {
@@ -470,7 +476,7 @@ static struct precalc_s {
 		us %= SECS_PER_MIN;
 	}
 	if (f.has_sec) {
-		res.S = us + __strf_tot_corr(dur);
+		res.S = us;
 	}
 	if (f.has_nano) {
 		if (dur.durtyp == DT_DURNANO) {
@@ -594,7 +600,7 @@ __strfdtdur(
 			/* time specs */
 		case DT_SPFL_N_TSTD:
 			if (UNLIKELY(spec.tai)) {
-				pre.S += __strf_tot_corr(dur);
+				pre.S += pre.rS;
 			}
 			bp += ltostr(bp, eo - bp, pre.S, -1, DT_SPPAD_NONE);
 			*bp++ = 's';
@@ -602,7 +608,7 @@ __strfdtdur(
 
 		case DT_SPFL_N_SEC:
 			if (UNLIKELY(spec.tai)) {
-				pre.S += __strf_tot_corr(dur);
+				pre.S += pre.rS;
 			}
 
 			bp += ltostr(bp, eo - bp, pre.S, 2, spec.pad);
